@@ -3,7 +3,7 @@
    image (any order, anything between and after them — a GNU hash section may end the file).
    Ties Proofs/C03Sysv.v and Proofs/C03Gnu.v (tables) to Proofs/C03Sym.v (decoded symbols)
    through the generic layout round trip of the hash headers. *)
-From PV Require Import Base.Fmt Base.Outcome Base.Prim Gen.ElfLayouts Spec.ElfGabi Spec.PrimSpec
+From PV Require Import Base.Fmt Base.Outcome Base.Prim Base.Enum Gen.ElfLayouts Gen.C09Hash Spec.ElfGabi Spec.PrimSpec
                        Spec.C03Sym Spec.C03Hash Model.C03Sections Model.C03Hash.
 From PV Require Import Proofs.PrimProofs Proofs.FmtProofs Proofs.ElfLayoutFacts
                        Proofs.C03HashFn Proofs.C03Sysv Proofs.C03Gnu Proofs.C03Sym.
@@ -43,6 +43,69 @@ Proof.
     cbn. rewrite !Z.eqb_refl. rewrite words_ok_forallb in Hwb, Hwc. rewrite Hwb, Hwc.
     unfold in_urange. change (2 ^ (8 * Z.of_nat 4)) with (2 ^ 32). cbn [andb]. lia.
   - unfold encode_sysv_hash in Hp. cbn. rewrite app_nil_r. exact Hp.
+Qed.
+
+(* ------------------------------------------------------------------ the entry width per machine *)
+Lemma dict_get_in : forall d k n, dict_get d k = Some n -> In (k, n) d.
+Proof.
+  induction d as [|[k' x] d IH]; intros k n H; cbn [dict_get] in H; [discriminate|].
+  destruct (Z.eqb_spec k' k) as [->|_]; [inversion H; left; reflexivity|right; apply IH; exact H].
+Qed.
+
+Lemma wide_names_only_22_41 :
+  forallb (fun kv => negb (existsb (fun p => (fst p =? snd kv)%string) gen_hash_wide)
+                     || (fst kv =? EM_S390) || (fst kv =? EM_ALPHA)) E005_e_machine = true.
+Proof. vm_compute. reflexivity. Qed.
+
+(* the machines for which the live code reads 64-bit entries are exactly the psABI's *)
+Theorem hash_wide_spec is64 machine : hash_wide is64 machine = Nat.eqb (sysv_entry_bytes is64 machine) 8.
+Proof.
+  unfold sysv_entry_bytes.
+  destruct (Z.eqb_spec machine EM_ALPHA) as [->|Ha]; [destruct is64; vm_compute; reflexivity|].
+  destruct (Z.eqb_spec machine EM_S390) as [->|Hs]; [destruct is64; vm_compute; reflexivity|].
+  rewrite andb_false_r. cbn [Nat.eqb].
+  unfold hash_wide. apply not_true_is_false. intros H. apply existsb_exists in H.
+  destruct H as [p [Hp Hk]]. apply andb_true_iff in Hk. destruct Hk as [Hk _]. apply String.eqb_eq in Hk.
+  unfold machine_key in Hk. destruct (dict_get E005_e_machine machine) as [n|] eqn:E.
+  - apply dict_get_in in E. pose proof wide_names_only_22_41 as W. rewrite forallb_forall in W.
+    specialize (W _ E). cbn [fst snd] in W. rewrite !orb_true_iff in W. destruct W as [[W|W]|W].
+    + apply negb_true_iff in W. assert (X : existsb (fun p0 => (fst p0 =? n)%string) gen_hash_wide = true).
+      { apply existsb_exists. exists p. split; [exact Hp|]. apply String.eqb_eq. exact Hk. }
+      congruence.
+    + apply Z.eqb_eq in W. contradiction.
+    + apply Z.eqb_eq in W. contradiction.
+  - unfold gen_hash_wide in Hp. cbn [In] in Hp. destruct Hp as [H|[H|[]]]; subst p; discriminate Hk.
+Qed.
+
+Lemma words_ok_wider l : words_ok 4 l = true -> words_ok 8 l = true.
+Proof.
+  unfold words_ok. rewrite !forallb_forall. intros H x Hx. specialize (H x Hx). unfold in_urange in *.
+  change (2 ^ (8 * Z.of_nat 4)) with (2 ^ 32) in H. change (2 ^ (8 * Z.of_nat 8)) with (2 ^ 64). lia.
+Qed.
+
+Lemma elf_hash_init_w_ok (wide le is64 : bool) img hoff T :
+  zlen (sv_buckets T) < 2 ^ 32 -> zlen (sv_chains T) < 2 ^ 32 ->
+  words_ok 4 (sv_buckets T) = true -> words_ok 4 (sv_chains T) = true ->
+  placed img hoff (encode_sysv_hash_w (if wide then 8%nat else 4%nat) le T) ->
+  elf_hash_init_w wide le is64 img hoff = Ok (sysv_params T).
+Proof.
+  intros Hb Hc Hwb Hwc Hp. destruct wide.
+  - unfold elf_hash_init_w, Elf_Hash_layout.
+    assert (EL : gen_Elf_Hash_wide le =
+                 [("nbuckets", KU le 8); ("nchains", KU le 8);
+                  ("buckets", KArr (CField "nbuckets") le 8); ("chains", KArr (CField "nchains") le 8)])
+      by (destruct le; reflexivity).
+    rewrite EL.
+    rewrite (struct_parse_at_dyn _
+               [VZ (zlen (sv_buckets T)); VZ (zlen (sv_chains T)); VL (sv_buckets T); VL (sv_chains T)]).
+    + reflexivity.
+    + reflexivity.
+    + pose proof (zlen_nonneg (sv_buckets T)). pose proof (zlen_nonneg (sv_chains T)).
+      apply words_ok_wider in Hwb, Hwc. rewrite words_ok_forallb in Hwb, Hwc.
+      cbn. rewrite !Z.eqb_refl. rewrite Hwb, Hwc.
+      unfold in_urange. change (2 ^ (8 * Z.of_nat 8)) with (2 ^ 64). cbn [andb]. lia.
+    + unfold encode_sysv_hash_w in Hp. cbn. rewrite app_nil_r. exact Hp.
+  - apply (elf_hash_init_ok le is64 img hoff T Hb Hc Hwb Hwc Hp).
 Qed.
 
 (* ------------------------------------------------------------------ GNUHashTable.__init__ *)
@@ -147,23 +210,30 @@ Qed.
 (* ================================================================== ELFHashSection *)
 Section sysv_image.
 Variables (le is64 : bool) (es : Z) (rows : list row) (strtab img : list Z) (off size stroff : Z).
-Variables (T : sysv_table) (hoff : Z).
+Variables (T : sysv_table) (hoff : Z) (machine : Z).
 Hypothesis Hok : symtab_ok is64 es rows = true.
 Hypothesis Hnames : names_ok strtab rows = true.
 Hypothesis Hsym : placed img off (encode_symtab le is64 rows).
 Hypothesis Hstr : placed img stroff strtab.
 Hypothesis Hsize : es * zlen rows <= size < es * (zlen rows + 1).
 Hypothesis Hwf : wf_sysv_hash T (names_of strtab rows) = true.
-Hypothesis Hhash : placed img hoff (encode_sysv_hash le T).
+Hypothesis Hhash : placed img hoff (encode_sysv_hash_w (sysv_entry_bytes is64 machine) le T).
 
 Let c := mkSymCfg le is64 (mkSec off size es) stroff.
 Let vs := views strtab rows.
 
-Lemma sysv_section_unfold q :
-  elf_hash_section_get_symbol img c hoff q = elf_hash_get_symbol (get_symbol img c) (sysv_params T) q.
+Lemma sysv_init : elf_hash_init_w (hash_wide is64 machine) le is64 img hoff = Ok (sysv_params T).
 Proof.
-  unfold elf_hash_section_get_symbol. destruct (wf_sysv_ranges _ _ Hwf) as [H1 [H2 [H3 H4]]].
-  unfold c. cbn [c_le c_is64]. rewrite (elf_hash_init_ok le is64 img hoff T H1 H2 H3 H4 Hhash). reflexivity.
+  destruct (wf_sysv_ranges _ _ Hwf) as [H1 [H2 [H3 H4]]].
+  apply elf_hash_init_w_ok; try assumption.
+  rewrite hash_wide_spec. unfold sysv_entry_bytes in *.
+  destruct (is64 && ((machine =? EM_ALPHA) || (machine =? EM_S390))); exact Hhash.
+Qed.
+
+Lemma sysv_section_unfold q :
+  elf_hash_section_get_symbol_m machine img c hoff q = elf_hash_get_symbol (get_symbol img c) (sysv_params T) q.
+Proof.
+  unfold elf_hash_section_get_symbol_m, c. cbn [c_le c_is64]. rewrite sysv_init. reflexivity.
 Qed.
 
 Let Hwf' : wf_sysv_hash T (map fst vs) = true.
@@ -179,24 +249,23 @@ Lemma zlen_vs : zlen vs = zlen rows.
 Proof. unfold vs, views, zlen. rewrite map_length. reflexivity. Qed.
 
 Theorem sysv_section_sound q v :
-  elf_hash_section_get_symbol img c hoff q = Ok (Some v) ->
+  elf_hash_section_get_symbol_m machine img c hoff q = Ok (Some v) ->
   fst v = q /\ exists i, 1 <= i < zlen rows /\ v = vth vs i.
 Proof. rewrite sysv_section_unfold, <- zlen_vs. apply (sysv_lookup_sound T vs _ Hwf' Hget). Qed.
 
 Theorem sysv_section_complete q :
   (exists i, 1 <= i < zlen rows /\ fst (vth vs i) = q) ->
-  exists v, elf_hash_section_get_symbol img c hoff q = Ok (Some v) /\ fst v = q.
+  exists v, elf_hash_section_get_symbol_m machine img c hoff q = Ok (Some v) /\ fst v = q.
 Proof. rewrite sysv_section_unfold, <- zlen_vs. apply (sysv_lookup_complete T vs _ Hwf' Hget). Qed.
 
 Theorem sysv_section_absent q :
   (forall i, 1 <= i < zlen rows -> fst (vth vs i) <> q) ->
-  elf_hash_section_get_symbol img c hoff q = Ok None.
+  elf_hash_section_get_symbol_m machine img c hoff q = Ok None.
 Proof. rewrite sysv_section_unfold, <- zlen_vs. apply (sysv_lookup_absent T vs _ Hwf' Hget). Qed.
 
-Theorem sysv_section_count : elf_hash_section_number_of_symbols img c hoff = Ok (zlen rows).
+Theorem sysv_section_count : elf_hash_section_number_of_symbols_m machine img c hoff = Ok (zlen rows).
 Proof.
-  unfold elf_hash_section_number_of_symbols. destruct (wf_sysv_ranges _ _ Hwf) as [H1 [H2 [H3 H4]]].
-  unfold c. cbn [c_le c_is64]. rewrite (elf_hash_init_ok le is64 img hoff T H1 H2 H3 H4 Hhash). cbn [bind].
+  unfold elf_hash_section_number_of_symbols_m, c. cbn [c_le c_is64]. rewrite sysv_init. cbn [bind].
   rewrite (sysv_count_exact T vs Hwf'). rewrite zlen_vs. reflexivity.
 Qed.
 End sysv_image.
